@@ -32,7 +32,7 @@ def run(ctx):
         steps.append({"a": "submit", "h": k})
     scen.append({"id": "offsets", "steps": steps})
     # 2. random histories
-    for i in range(8 if quick else 400):
+    for i in range(8 if quick else 2500):
         steps, known = [], []
         hh = 0
         for _ in range(rng.randrange(10, 40)):
@@ -50,10 +50,10 @@ def run(ctx):
                 known.append(hh)
         scen.append({"id": "hist%d" % i, "steps": steps})
     # 3. concurrent submissions of one handshake on an EMPTY filter (the racy case), many bridges
-    for i in range(20 if quick else 1000):
+    for i in range(20 if quick else 6000):
         scen.append({"id": "race%d" % i, "steps": [{"a": "burst", "h": 1, "off": 0, "n": rng.choice([2, 2, 4, 16])}]})
     # 4. the model's counterexample, forced with the gate (regression scenario C04-D7); also with a non-empty filter
-    for i in range(3 if quick else 40):
+    for i in range(3 if quick else 200):
         scen.append({"id": "gate%d" % i, "steps": [{"a": "gate", "h": 1, "off": rng.choice([0, 1, -1])}, {"a": "submit", "h": 1}]})
     # a long-running bridge: an unrelated old entry reaches its TTL between a handshake and its replay (the purge of the
     # expired entry must not take younger entries with it); real time, 3 s per scenario
@@ -62,7 +62,7 @@ def run(ctx):
         steps = [{"a": "plant", "n": short}, {"a": "new", "h": 1, "off": [0, -1, 1][i % 3]}, {"a": "submit", "h": 1}, {"a": "new", "h": 2, "off": 0}, {"a": "submit", "h": 2},
                  {"a": "sleep", "n": 1000 * short + 700}, {"a": "submit", "h": 1}, {"a": "submit", "h": 2}, {"a": "submit", "h": 1}]
         scen.append({"id": "aged%d" % i, "steps": steps})
-    for i in range(3 if quick else 40):
+    for i in range(3 if quick else 200):
         scen.append({"id": "gatewarm%d" % i, "steps": [{"a": "new", "h": 1, "off": 0}, {"a": "submit", "h": 1}, {"a": "gate", "h": 2, "off": 0}, {"a": "submit", "h": 1}, {"a": "submit", "h": 2}]})
     binary = ctx.go_build("./cmd/c04")
     traces = ctx.exec_scenarios(binary, scen, "c04", shards=12, timeout=3000)
